@@ -239,9 +239,16 @@ func (x *Exec) rangeRule(fr *Frame, st *State, spec *SyncMapSpec, mv mapV, fnv V
 		}
 		x.flushTop(s)
 	}
+	havocGhosts := func(s *State) {
+		for _, g := range rs.Ghosts {
+			nm := "GW|" + g.Name
+			s.heap[nm] = Const(freshName(nm), ghostWitnessSort(g.Name))
+		}
+	}
 	// --- path A: an arbitrary iteration
 	stA, frA := st.clone(), fr.clone()
 	havocAll(stA)
+	havocGhosts(stA)
 	visited := Const(freshName("visited"), setSort)
 	key := Const(freshName("rangekey"), ks)
 	// visited is a subset of the domain; the current key is unvisited
@@ -254,6 +261,13 @@ func (x *Exec) rangeRule(fr *Frame, st *State, spec *SyncMapSpec, mv mapV, fnv V
 	}
 	for _, cl := range rs.Inv {
 		stA.assume(evalC(envA, cl, "invariant"))
+	}
+	// witness arrays: name[keyExpr] := valExpr at the start of the iteration
+	for _, g := range rs.Ghosts {
+		nm := "GW|" + g.Name
+		kt := envA.eval(g.Key).V.(*Term)
+		vt := envA.eval(g.Val).V.(*Term)
+		stA.heap[nm] = Store(heapArr(stA.heap, nm, ghostWitnessSort(g.Name)), kt, vt)
 	}
 	_, tagA, valA, _ := x.smArrays(stA, mv)
 	val := IfaceV{Select(Select(tagA, mv.Addr), key), Select(Select(valA, mv.Addr), key)}
@@ -284,6 +298,7 @@ func (x *Exec) rangeRule(fr *Frame, st *State, spec *SyncMapSpec, mv mapV, fnv V
 	})
 	// --- path B: the iteration ran to completion
 	havocAll(st)
+	havocGhosts(st)
 	envE := mkEnv(st, domSet, nil)
 	for _, cl := range rs.Inv {
 		st.assume(evalC(envE, cl, "invariant"))
@@ -292,3 +307,14 @@ func (x *Exec) rangeRule(fr *Frame, st *State, spec *SyncMapSpec, mv mapV, fnv V
 }
 
 var _ = token.NoPos
+
+func ghostWitnessSort(name string) *Sort {
+	d := ghostWitnessDecl[name]
+	srt := func(t string) *Sort {
+		if t == "string" {
+			return StringS
+		}
+		return IntS
+	}
+	return ArrayS(srt(d[0]), srt(d[1]))
+}
